@@ -13,7 +13,40 @@ let of_result (r : M.ClsTerm.passes_result) : Sexp.t =
   | M.ClsTerm.PTooLarge n -> L [ A "toolarge"; of_natv n ]
   | M.ClsTerm.PDone (n, g, trace) -> L [ A "passes"; of_natv n; of_formula g; L (A "trace" :: List.map of_entry trace) ]
 
+(* ------------------------------------------------------------------------------------------
+   sem_classic_passes / sem_classic_only_passes: the idempotence half of C18 judged on the
+   IMPLEMENTATION's own output.  Input (F out), out = (passes n G trace) - G is what the real
+   Formula::apply_fixpoint returned (the harness has compared it with its replay) - or
+   (apply-fixpoint-differs n G) - G is what the real apply_fixpoint returned although the replay
+   of the loop ended elsewhere.  "Simplifying G again returns G unchanged": one more post-order pass
+   of the composed portfolio (the model's, tied rule by rule to the code by C07) must leave G
+   unchanged.  A panic of a classic rule in that pass is the identity of the real loop's caller
+   only in the model; it is reported as ok here (C16 covers crashes). *)
+let one_pass portfolio g =
+  M.StrategyCls.run_strategy_opt (Conv.nat_of_int 1) portfolio M.StrategyCls.Recursive g
+
+let sem_fixpoint portfolio (e : Sexp.t) : Sexp.t =
+  let judge n g =
+    let g = formula g in
+    match one_pass portfolio g with
+    | M.StrategyCls.RDone g' when g' <> g ->
+      L [ A "cex"; L [ A "result-of-the-fixpoint-strategy-is-not-a-fixpoint"; L [ A "replay-passes"; n ];
+                       L [ A "result"; of_formula g ]; L [ A "simplified-again"; of_formula g' ] ] ]
+    | _ -> L [ A "ok"; A "1" ] in
+  match e with
+  | L [ _; L [ A "passes"; n; g; _ ] ] -> judge n g
+  | L [ _; L [ A "apply-fixpoint-differs"; n; g ] ] ->
+    (match judge n g with
+     | L (A "ok" :: _) ->
+       (* a fixpoint, but not the one the loop reaches: still not what `while previous != current` computes *)
+       L [ A "cex"; L [ A "apply-fixpoint-differs-from-the-replayed-loop"; L [ A "replay-passes"; n ]; L [ A "result"; g ] ] ]
+     | r -> r)
+  | L [ _; L (A ("nonterminating" | "toolarge" | "panic") :: _) ] -> L [ A "ok"; A "0" ]
+  | _ -> bad "sem_classic_passes: %s" (to_string e)
+
 let () =
+  Ops.register "sem_classic_passes" (sem_fixpoint M.ClsTerm.portfolio_classic_opt);
+  Ops.register "sem_classic_only_passes" (sem_fixpoint M.SimplClassic.coq_CLASSIC_opt);
   Ops.register "classic_passes" (fun e -> of_result (M.ClsTerm.classic_passes (formula e)));
   Ops.register "classic_only_passes" (fun e -> of_result (M.ClsTerm.classic_only_passes (formula e)))
 let init () = ()
